@@ -250,6 +250,22 @@ func hygieneLocks(r *R, rule string, fn *ssa.Function) {
 					leak = true
 				}
 			}
+			if leak {
+				// unlock … wait … relock inside a defer-protected section (`mu.Lock(); defer mu.Unlock(); for !cond { mu.Unlock(); <-ch; mu.Lock() }`):
+				// a deferred release registered before this acquire runs at every exit; it covers this acquire when every path
+				// from the defer to here passes an explicit release (so the lock is held once, not twice, at the exit).
+				var explicit []ssa.Instruction
+				for _, u := range sites {
+					if u.op == -s.op && u.key == s.key && !u.dfr {
+						explicit = append(explicit, u.in)
+					}
+				}
+				for _, d := range sites {
+					if d.op == -s.op && d.key == s.key && d.dfr && len(explicit) > 0 && Precedes(d.in, s.in) && !Reach(fn, d.in, s.in, cut, setOf(explicit)) {
+						leak = false
+					}
+				}
+			}
 			r.Check(!leak, rule, fn, "Lock "+s.key, s.in.Pos(), "released on every path to every return", "a path reaches a return with this lock still held: every later operation that needs it blocks forever")
 		} else {
 			var locks []ssa.Instruction
